@@ -36,6 +36,8 @@ type NSSub struct {
 	NoSB   bool     `json:"no_sb,omitempty"` // its sandbox name is not registered
 	SBName string   `json:"sb_name,omitempty"`
 	Us     int      `json:"us,omitempty"` // body duration
+	Fail   bool     `json:"fail,omitempty"` // its body (one probe command) fails
+	Lock   bool     `json:"lock,omitempty"` // it asks for the shared resource "res" for writing
 }
 
 // GenNS draws a case.
@@ -45,7 +47,11 @@ func GenNS(rt *rapid.T) NSCase {
 	nosb := hx.Uniform(rt, n, "which") // at least one unprovidable
 	for i := 0; i < n; i++ {
 		s := NSSub{Name: fmt.Sprintf("t%d", i), Us: []int{0, 0, 50, 300, 1500}[hx.Uniform(rt, 5, "us")]}
-		if i == nosb || high(rt, 15, "nosb") {
+		s.Lock = high(rt, 50, "lock")
+		if i != nosb && high(rt, 20, "failbody") {
+			s.Fail = true
+		}
+		if i == nosb || (!s.Fail && high(rt, 15, "nosb")) {
 			s.NoSB = true
 			s.SBName = []string{"nosuch", "nosuch:arg", "container", "ssh", "selfx", "docker:"}[hx.Uniform(rt, 6, "sbname")]
 		}
@@ -122,7 +128,11 @@ func execNS(c NSCase) hx.Verdict {
 	ns := namespaces.NewNamespaces(pipservices.NamasepacesParams{Task: "", Lock: ""})
 	r.root, r.runner, r.cwd, r.ns = root, svc.Runner, cwd, ns
 	for i, s := range c.Subs {
-		r.probes[fmt.Sprintf("n%d", i)] = probeSpec{task: s.Name, idx: 0, us: s.Us}
+		ps := probeSpec{task: s.Name, idx: 0, us: s.Us}
+		if s.Fail {
+			ps.fail = "return"
+		}
+		r.probes[fmt.Sprintf("n%d", i)] = ps
 	}
 
 	type outcome struct{ accepted bool }
@@ -162,7 +172,7 @@ func execNS(c NSCase) hx.Verdict {
 				Name:       s.Name,
 				Namespaces: ns,
 				Sandbox:    sb,
-				Lock:       commservices.LockMap{},
+				Lock:       lockOf(s),
 				Wait:       append([]string(nil), s.Wait...),
 			})
 			res[i].accepted = rerr == nil
@@ -258,6 +268,13 @@ func execNS(c NSCase) hx.Verdict {
 				return hx.Fail("no-body-after-failed-prerequisite", "task %s executed its body although a task of its wait list %v ended failed", s.Name, s.Wait)
 			}
 		}
+		if s.Fail && !mustFail[i] && runOK {
+			// its prerequisites were fine and its sandbox exists: the body runs, fails, the task ends failed
+			if !ran[s.Name] {
+				return hx.Fail("body-executed", "task %s (self sandbox, no failed prerequisite) never executed its body", s.Name)
+			}
+			mustFail[i] = true
+		}
 		if mustFail[i] && !out.failed[s.Name] {
 			return hx.Fail("ends-failed", "task %s (unprovidable sandbox or failed prerequisite) did not end failed", s.Name)
 		}
@@ -300,7 +317,23 @@ func execNS(c NSCase) hx.Verdict {
 		v.Label("nosandbox:later-submission-waits-for-it")
 		v.NonTrivial = true
 	}
+	for i, s := range c.Subs {
+		if s.Fail && s.Lock && inManager[s.Name] && ran[s.Name] {
+			for _, t := range c.Subs[i+1:] {
+				if t.Lock {
+					v.Label("nosandbox:task-after-a-failed-holder-of-the-same-resource")
+				}
+			}
+		}
+	}
 	return v
+}
+
+func lockOf(s NSSub) commservices.LockMap {
+	if s.Lock {
+		return commservices.LockMap{"res": commservices.LockRW}
+	}
+	return commservices.LockMap{}
 }
 
 func sbOf(s NSSub) string {
